@@ -22,7 +22,7 @@ ASSUMPTIONS = ["the centroid/bisector values, range membership and the translati
 FLOORS = {"S1": 10, "S2": 1, "R1": 3, "R2": 3, "R3": 5, "S5": 4, "V1": 5}
 
 CLASSES = ["Bisector", "Centroid", "LargestOfMaximum", "MeanOfMaximum", "SmallestOfMaximum"]
-REDUCERS = {"min": {"numpy.nanmin", "numpy.min", "numpy.amin"}, "mean": {"numpy.nanmean", "numpy.mean"}, "max": {"numpy.nanmax", "numpy.max", "numpy.amax"}}
+REDUCERS = {"min": {"numpy.nanmin"}, "mean": {"numpy.nanmean"}, "max": {"numpy.nanmax"}}  # NaN-ignoring: the points that are not selected are NaN
 HOLE = ("global", "<reducer>")
 
 
@@ -66,7 +66,8 @@ def run(check: Check) -> None:
                 kw = dict(s[3])
                 name = s[1][1].split(".")[-1] if s[1][0] == "global" else (s[1][2] if s[1][0] == "attr" else "")
                 if name in ("sum", "cumsum", "nancumsum", "max", "min", "mean", "nanmean", "nanmax", "nanmin", "nansum", "amax", "amin", "argmax", "argmin"):
-                    axes.append((name, const_value(kw["axis"]) if "axis" in kw else None))
+                    ax = kw.get("axis", s[2][1] if s[1][0] == "global" and len(s[2]) > 1 else (s[2][0] if s[1][0] == "attr" and s[2] else None))
+                    axes.append((name, const_value(ax) if ax is not None else None))
         bad = [(n_, a) for n_, a in axes if a != 1]
         check.require(bool(axes) and not bad, "R3", f"{cname}.defuzzify/axis", f"all {len(axes)} reductions run along the sampling axis 1" if axes and not bad else
                       f"reductions with another axis: {bad}", loc(fn))
@@ -78,31 +79,86 @@ def run(check: Check) -> None:
     check.exhaustive_parts += ["sibling normal forms of the three maxima defuzzifiers"]
 
 
+RED_NAMES = {"nanmin", "min", "amin", "nanmean", "mean", "nanmax", "max", "amax", "nanmedian", "median", "sum", "nansum"}
+
+
+def _reducers_over_points(ret: Term, x: Term, y: Term) -> list[tuple[Term, Term, str]]:
+    """Reduction calls whose argument is built from the sample points x other than through the memberships y: (call, argument, name)."""
+    out = []
+    for s_ in walk(ret):
+        if s_[0] != "call":
+            continue
+        if s_[1][0] == "global" and s_[1][1].startswith("numpy.") and s_[1][1].split(".")[-1] in RED_NAMES and s_[2]:
+            arg, name = s_[2][0], s_[1][1]
+        elif s_[1][0] == "attr" and s_[1][2] in RED_NAMES:
+            arg, name = s_[1][1], "ndarray." + s_[1][2]
+        else:
+            continue
+        if any(q == x for q in walk(_replace(arg, y, ("param", "<y>")))):
+            out.append((s_, arg, name))
+    return out
+
+
 def maxima(check: Check, infos: dict) -> None:
+    from ..absint import FINITE, NAN, Abs, Evaluator, show_abs
+
     forms = {}
     holes = {}
     for cname, kind in (("SmallestOfMaximum", "min"), ("MeanOfMaximum", "mean"), ("LargestOfMaximum", "max")):
         fn, r, cfg, ret, x, y = infos[cname]
-        # the outermost reducer applied to where(mask, x, nan)
-        cands = [s for s in walk(ret) if s[0] == "call" and s[1][0] == "global" and s[2] and s[2][0][0] == "call" and s[2][0][1] == ("global", "numpy.where")]
+        # the outermost reducer applied to the selected sample points
+        cands = _reducers_over_points(ret, x, y)
+        cands = [c for c in cands if not any(c[0] is not d[0] and any(q == c[0] for q in walk(d[1])) for d in cands)]
         if len(cands) != 1:
-            raise AnalysisError(f"{cname}.defuzzify: reducer over the selected points not recognised")
-        red = cands[0]
-        holes[cname] = red[1][1]
-        forms[cname] = normalize(_replace(ret, red, ("call", HOLE, red[2], red[3])))
-        ok = red[1][1] in REDUCERS[kind]
-        check.require(ok, "R1", f"{cname}.defuzzify/reducer", f"{cname} reduces the selected points with {red[1][1]}" + ("" if ok else
-                      f", expected a {kind} reducer ({sorted(REDUCERS[kind])})"), loc(fn))
-        # R2 mask
-        wh = red[2][0]
-        mask = wh[2][0] if len(wh[2]) == 3 else ("const", None)
+            check.violation("R1", f"{cname}.defuzzify/reducer", f"expected one {kind} reduction over the selected sample points, found "
+                            f"{[c[2] for c in cands]}", loc(fn))
+            forms[cname] = normalize(ret)
+            holes[cname] = "?"
+            continue
+        red, arg, rname = cands[0]
+        holes[cname] = rname
+        forms[cname] = normalize(_replace(ret, red, ("call", HOLE, (arg,) + tuple(red[2][1:] if red[1][0] == "global" else red[2]), red[3])))
+        ok = rname in REDUCERS[kind]
+        check.require(ok, "R1", f"{cname}.defuzzify/reducer", f"{cname} reduces the selected points with {rname}" + ("" if ok else
+                      f", expected a {kind} reducer that ignores the points that are not selected ({sorted(REDUCERS[kind])})"), loc(fn))
+        # R2: what a sample point contributes to the reduction, by abstract interpretation over the two selection conditions:
+        # the point itself when its membership is positive and equals the per-set maximum, NaN (ignored) otherwise
         ymax = ("call", ("attr", y, "max"), (), (("axis", ("const", 1)), ("keepdims", ("const", True))))
-        pos = ("cmp", (">",), (y, ("const", 0)))
-        eq = ("cmp", ("==",), (y, ymax))
-        m_ok = normalize(mask) == normalize(("binop", "&", pos, eq)) and wh[2][1] == x and \
-            (lambda v: isinstance(v, float) and v != v)(const_value(wh[2][2]))
-        check.require(m_ok, "R2", f"{cname}.defuzzify/mask", "selected points: membership equals the per-set maximum and is positive; others are NaN"
-                      if m_ok else f"selection is {show(wh)[:200]}", loc(fn))
+        pos_forms = {normalize(("cmp", (">",), (y, ("const", 0)))), normalize(("cmp", ("<",), (("const", 0), y))),
+                     normalize(("cmp", (">",), (y, ("const", 0.0)))), normalize(("cmp", ("<",), (("const", 0.0), y)))}
+        eq_form = normalize(("cmp", ("==",), (y, ymax)))
+        seen_atoms = set()
+        rows = {}
+        for pos_v in (True, False):
+            for eq_v in (True, False):
+                def env(t: Term, pos_v=pos_v, eq_v=eq_v):
+                    if t == x:
+                        return Abs(FINITE)
+                    nt = normalize(t)
+                    if nt in pos_forms:
+                        seen_atoms.add("positive")
+                        return frozenset({pos_v})
+                    if nt == eq_form:
+                        seen_atoms.add("maximal")
+                        return frozenset({eq_v})
+                    if t == y:
+                        return Abs(FINITE)
+                    return None
+                try:
+                    rows[(pos_v, eq_v)] = Evaluator(check.program, env).ev(arg)
+                except AnalysisError as ex:
+                    rows[(pos_v, eq_v)] = str(ex)
+        want = {(True, True): Abs(FINITE), (True, False): Abs({NAN}), (False, True): Abs({NAN}), (False, False): Abs({NAN})}
+        bad = {k: v for k, v in rows.items() if v != want[k]}
+        names = {(True, True): "positive and maximal", (True, False): "positive, below the maximum", (False, True): "zero and maximal (empty set)",
+                 (False, False): "zero, below the maximum"}
+        m_ok = not bad and seen_atoms == {"positive", "maximal"}
+        check.require(m_ok, "R2", f"{cname}.defuzzify/mask",
+                      "a sample point enters the reduction iff its membership is positive and equals the per-set maximum; all other points are NaN (ignored)"
+                      if m_ok else "what a sample point contributes to the reduction: " + "; ".join(
+                          f"{names[k]} -> {show_abs(v) if not isinstance(v, str) else v} (specified {show_abs(want[k])})" for k, v in bad.items())
+                      + ("" if seen_atoms == {"positive", "maximal"} else f"; conditions found: {sorted(seen_atoms)}"), loc(fn),
+                      exhaustive=True, cases=4)
     a, b, c = forms["SmallestOfMaximum"], forms["MeanOfMaximum"], forms["LargestOfMaximum"]
     same = a == b == c
     diff = ""
